@@ -1,7 +1,9 @@
 from checks.common import Build, Job
+from checks import cross
 
 PROP = "C12"
 BUILDS = [Build("c12", "harness/c12_lfq.c", extra_repo=["rculfqueue.c"])]
+BUILDS = BUILDS + cross.gp_builds() + cross.callrcu_builds()   # cross-property core jobs (checks/cross.py)
 RULE = ("every schedule (preemption / TSO-delay budget) of 2-3 threads enqueueing and dequeueing inside (specification) read-side "
         "sections on the real rculfqueue code, with dequeued nodes and internal dummy nodes freed by a reclaimer thread after a "
         "specification grace period (which may end as early as the specification allows); oracles: FIFO linearizability, NULL "
@@ -20,6 +22,9 @@ def jobs(tier):
          Job("c12", "pingpong", "3,0,0,0" if q else "4,0,0,0", workers=8),
          Job("c12", "pingpong", "2,1,0,0", workers=8),
          Job("c12", "pingpong", "2,0,0,0", {"destroy_nonempty": 1}, workers=8)]
+    # the components this property's guarantee is built on, on the real code (checks/cross.py)
+    J += cross.gp_core(tier)
+    J += cross.callrcu_core(tier)
     return J
 
 
